@@ -1,6 +1,7 @@
 (* C10 — Locked funds are fully backed and released only to the entitled party, on time.
    Only statements; each is closed by a lemma proved in theories/. *)
 From ZV Require Import Prelude GoSem Abi VmReceive VmReceiveProofs Emb EmbProofs Locks LocksProofs LocksBacked.
+From ZV Require Import Liquidity LiquidityProofs Bridge BridgeProofs.
 From ZV.gen Require Import Consts Pure.
 Open Scope Z_scope.
 
@@ -157,6 +158,136 @@ Theorem C10_never_twice_withdraw_qsr : forall self (a a' : cacct cstore) s s2 ds
   withdraw_qsr_receive self a s = MOk a' ds -> s_from s2 = s_from s -> withdraw_qsr_validate s2 = VOk x ->
   withdraw_qsr_receive self a' s2 = MErr E_nothing_to_withdraw.
 Proof. exact withdraw_qsr_never_twice. Qed.
+
+(* ================================================================ liquidity stakes (vm/embedded/implementation/liquidity.go)
+   K_liq a = keys unique /\ forall z, liab_liquidity (a_store a) z <= bal_get (a_bal a) z, where liab_liquidity sums the stake
+   entries per token.  Histories of LiquidityStake, CancelLiquidityStake, UnlockLiquidityStakeEntries, SetIsHalted and
+   Donate (liq_lookup); [zstr] is ZenonTokenStandard.String(), [ef s] the frontier momentum / constants at the receive of s.
+   lq_env_ok: StakeTimeUnitSec > 0 and StakeTimeMaxSec < 13 units (the weights table has 13 entries). *)
+Theorem C10_backed_liquidity : forall dc zstr ef q a,
+  (forall s, lq_env_ok (ef s)) -> deliverable dc q -> nonneg qstore a -> J_liq a -> K_liq a ->
+  exists a', process_all qstore dc (liq_lookup zstr ef) a q = Some a' /\ J_liq a' /\ K_liq a'.
+Proof. exact liquidity_backed_history. Qed.
+Theorem C10_backed_liquidity_means : forall a z, K_liq a -> liab_liquidity (a_store a) z <= bal_get (a_bal a) z.
+Proof. intros a z (_ & H). apply H. Qed.
+(* KNOWN FINDING liquidity-treasury-spent-below-stakes: with the treasury methods Fund / BurnZnn in the history (modelled as
+   the code is: they test the whole balance) the backing fails once ZNN is a stake token: a history of three applied calls
+   (stake 10 ZNN, donate 10 units of QSR, spork address funds 4 ZNN + 1) after which the contract owes 10 ZNN and holds 6,
+   and the matured cancellation is rolled back for insufficient balance *)
+Theorem C10_liquidity_treasury_refuted :
+  exists (q : list send) (a a' : cacct qstore),
+    deliverable tr_dc q /\ nonneg qstore a /\ J_liq a /\ K_liq a /\ lq_env_ok tr_env /\
+    process_all qstore tr_dc (liq_lookup_all tr_zstr tr_spork true (fun _ => tr_env)) a q = Some a' /\
+    liab_liquidity (a_store a') ZtsZnn = 1000000000 /\ bal_get (a_bal a') ZtsZnn = 600000000 /\
+    exists a'' c, generate_receive qstore tr_dc (liq_lookup_all tr_zstr tr_spork true (fun _ => tr_late)) a' tr_cancel = RRefunded a'' [] c /\
+                  c = E_insufficient_balance /\ liab_liquidity (a_store a'') ZtsZnn = 1000000000.
+Proof. exact liquidity_treasury_refuted. Qed.
+Theorem C10_fund_ignores_stakes : forall sp (a : cacct qstore) s znn qsr,
+  fund_validate sp s = VOk (znn, qsr) -> znn <= bal_get (a_bal a) ZtsZnn -> qsr <= bal_get (a_bal a) ZtsQsr ->
+  fund_receive sp true a s = MOk a [donate_call znn ZtsZnn; donate_call qsr ZtsQsr].
+Proof. exact fund_ignores_stakes. Qed.
+
+(* release rule: only the sender's own entry (the key contains the sender), not before its expiration, exactly the entry's
+   amount in the entry's token, to the sender; the entry is closed (amount 0, revoke time = now) *)
+Theorem C10_cancel_liquidity_stake_guard : forall e (a a' : cacct qstore) s ds,
+  cancel_liquidity_receive e a s = MOk a' ds ->
+  exists id ent, cancel_liquidity_validate s = VOk id /\ tget (lq_entries (a_store a)) (s_from s ++ id) = Some ent /\
+    ls_exp ent <= e_now e /\
+    ds = [{| d_to := s_from s; d_amount := ls_amount ent; d_zts := ls_zts ent; d_data := [] |}] /\
+    exists ent', tget (lq_entries (a_store a')) (s_from s ++ id) = Some ent' /\ ls_amount ent' = 0 /\ ls_revoke ent' = e_now e /\
+    a_bal a' = a_bal a.
+Proof. exact cancel_liquidity_guard. Qed.
+Theorem C10_never_twice_liquidity : forall e e' (a a' a'' : cacct qstore) s s2 ds ds2 id,
+  cancel_liquidity_receive e a s = MOk a' ds -> cancel_liquidity_validate s = VOk id ->
+  s_from s2 = s_from s -> cancel_liquidity_validate s2 = VOk id ->
+  cancel_liquidity_receive e' a' s2 = MOk a'' ds2 ->
+  exists z, ds2 = [{| d_to := s_from s; d_amount := 0; d_zts := z; d_data := [] |}].
+Proof. exact liquidity_never_twice. Qed.
+Theorem C10_liquidity_stake_guard : forall zstr e (a a' : cacct qstore) s ds,
+  liquidity_stake_receive zstr e a s = MOk a' ds ->
+  exists t ent, liquidity_stake_validate e s = VOk t /\ ds = [] /\ a_bal a' = a_bal a /\
+    tuple_check (lq_tuples (a_store a)) (zstr (s_zts s)) (s_amount s) = None /\
+    tget (lq_entries (a_store a')) (s_from s ++ s_hash s) = Some ent /\
+    ls_amount ent = u256 (s_amount s) /\ ls_zts ent = s_zts s /\ ls_start ent = e_now e /\ ls_revoke ent = 0 /\ ls_exp ent = wrapS 64 (e_now e + t).
+Proof. exact liquidity_stake_guard. Qed.
+Theorem C10_liquidity_stake_token_configured : forall ts zs amount, tuple_check ts zs amount = None ->
+  exists t, In t ts /\ lt_zts t = zs /\ lt_min t <= amount.
+Proof. exact tuple_check_none. Qed.
+(* the administrator's unlock moves no value and changes no amount, owner or token: only expirations of the named token,
+   only downwards to now *)
+Theorem C10_unlock_liquidity_guard : forall e (a a' : cacct qstore) s ds,
+  unlock_liquidity_receive e a s = MOk a' ds ->
+  s_from s = lq_admin (a_store a) /\ ds = [] /\ a_bal a' = a_bal a /\
+  forall k, match tget (lq_entries (a_store a)) k, tget (lq_entries (a_store a')) k with
+            | Some x, Some y => ls_amount y = ls_amount x /\ ls_zts y = ls_zts x /\ ls_revoke y = ls_revoke x /\ ls_start y = ls_start x /\
+                                (ls_exp y = ls_exp x \/ (ls_zts x = s_zts s /\ e_now e < ls_exp x /\ ls_exp y = e_now e))
+            | None, None => True
+            | _, _ => False
+            end.
+Proof. exact unlock_liquidity_guard. Qed.
+
+(* ================================================================ bridge unwrap requests (vm/embedded/implementation/bridge.go)
+   [sigcheck s] = 0 iff the ECDSA signature carried by s verifies against the TSS key over the request's fields
+   (observed from the real code in the correspondence check). *)
+Theorem C10_unwrap_guard : forall zstr sigcheck e (a a' : cacct bstore) s ds,
+  unwrap_receive zstr sigcheck e a s = MOk a' ds ->
+  exists class chain tx log to tok amount sig nw p,
+    unwrap_validate s = VOk (class, chain, tx, log, to, tok, amount, sig) /\
+    sigcheck s = 0 /\ can_perform (a_store a) (e_height e) = None /\
+    tget (b_unwraps (a_store a)) (unwrap_key tx log) = None /\
+    get_network (a_store a) class chain = Some nw /\ find_pair_unwrap zstr (nw_pairs nw) (to_lower tok) = Some p /\ tp_redeemable p = true /\
+    ds = [] /\ a_bal a' = a_bal a /\
+    tget (b_unwraps (a_store a')) (unwrap_key tx log) =
+      Some {| u_reg := e_height e; u_class := class; u_chain := chain; u_to := to; u_tokaddr := to_lower tok; u_zts := tp_zts p;
+              u_amount := amount; u_sig := sig; u_redeemed := 0; u_revoked := 0 |}.
+Proof. exact unwrap_guard. Qed.
+(* Redeem pays only: an existing request, neither redeemed nor revoked, on an initialised bridge that is not halted, after
+   the redeem delay of the request's token pair, exactly the request's amount to the request's recipient (transfer, or Mint
+   call for an owned pair), and marks the request redeemed *)
+Theorem C10_redeem_guard : forall e (a a' : cacct bstore) s ds,
+  redeem_receive e a s = MOk a' ds ->
+  exists tx log req nw p,
+    redeem_validate s = VOk (tx, log) /\
+    tget (b_unwraps (a_store a)) (unwrap_key tx log) = Some req /\
+    u_redeemed req <= 0 /\ u_revoked req <= 0 /\
+    can_perform (a_store a) (e_height e) = None /\
+    get_network (a_store a) (u_class req) (u_chain req) = Some nw /\
+    find_pair_redeem (nw_pairs nw) req = Some p /\
+    tp_delay p <= u64 (e_height e - u_reg req) /\
+    (tp_owned p = false -> u_amount req <= bal_get (a_bal a) (tp_zts p)) /\
+    ds = [redeem_payout p req] /\
+    tget (b_unwraps (a_store a')) (unwrap_key tx log) = Some (redeemed_of req) /\
+    a_bal a' = a_bal a.
+Proof. exact redeem_guard. Qed.
+Theorem C10_redeem_payout_means : forall p req,
+  redeem_payout p req = if tp_owned p
+    then {| d_to := AddrTokenContract; d_amount := 0; d_zts := tp_zts p; d_data := mint_data (tp_zts p) (u_amount req) (u_to req) |}
+    else {| d_to := u_to req; d_amount := u_amount req; d_zts := tp_zts p; d_data := [] |}.
+Proof. reflexivity. Qed.
+Theorem C10_never_twice_redeem : forall e e' (a a' : cacct bstore) s s2 ds tx log,
+  redeem_receive e a s = MOk a' ds -> redeem_validate s = VOk (tx, log) -> redeem_validate s2 = VOk (tx, log) ->
+  forall a'' ds2, redeem_receive e' a' s2 <> MOk a'' ds2.
+Proof. exact redeem_never_twice. Qed.
+Theorem C10_revoke_guard : forall (a a' : cacct bstore) s ds,
+  revoke_receive a s = MOk a' ds ->
+  exists tx log req, revoke_validate s = VOk (tx, log) /\ tget (b_unwraps (a_store a)) (unwrap_key tx log) = Some req /\
+    s_from s = b_admin (a_store a) /\ ds = [] /\ a_bal a' = a_bal a /\
+    tget (b_unwraps (a_store a')) (unwrap_key tx log) = Some (revoked_of req).
+Proof. exact revoke_guard. Qed.
+Theorem C10_revoked_request_never_redeemed : forall e' (a a' : cacct bstore) s s2 ds tx log,
+  revoke_receive a s = MOk a' ds -> revoke_validate s = VOk (tx, log) -> redeem_validate s2 = VOk (tx, log) ->
+  forall a'' ds2, redeem_receive e' a' s2 <> MOk a'' ds2.
+Proof. exact revoked_never_redeemed. Qed.
+(* ... and along every later history of UnwrapToken / Redeem / RevokeUnwrapRequest calls: every call gets its receive block,
+   a request that is redeemed or revoked (closed) stays so, and a closed request is never paid *)
+Theorem C10_closed_request_stays_closed : forall dc zstr sigcheck ef q a k,
+  deliverable dc q -> nonneg bstore a -> J_bridge a -> closed (a_store a) k ->
+  exists a', process_all bstore dc (bridge_lookup zstr sigcheck ef) a q = Some a' /\ J_bridge a' /\ closed (a_store a') k.
+Proof. exact bridge_closed_history. Qed.
+Theorem C10_closed_request_never_paid : forall e (a : cacct bstore) s tx log,
+  redeem_validate s = VOk (tx, log) -> closed (a_store a) (unwrap_key tx log) ->
+  forall a' ds, redeem_receive e a s <> MOk a' ds.
+Proof. exact redeem_closed_refused. Qed.
 
 (* non-vacuity: with the real constants a pillar registered at time 1000 can be revoked only in the last
    PillarEpochRevokeTime seconds of each lock+revoke cycle *)
